@@ -140,7 +140,7 @@ def fits : Nat → Expr → Bool
   | k, .grouping e _ => decide (k ≤ nLev + 2) && fits 0 e
   | k, .call c _ args => decide (k ≤ nLev + 2) && fits (nLev + 2) c && fitsAll args
   | k, .arrayLit es => decide (k ≤ nLev + 2) && fitsAll es
-  | k, .objectLit ps _ => decide (k ≤ nLev + 2) && fitsProps ps
+  | k, .objectLit ps tc => decide (k ≤ nLev + 2) && fitsProps ps && (!ps.isEmpty || !tc)
   | k, .arrayAccess a i _ => decide (k ≤ nLev + 2) && fits (nLev + 2) a && fits 0 i
   | k, .propAccess o _ _ => decide (k ≤ nLev + 2) && fits (nLev + 2) o
 def fitsAll : List Expr → Bool
@@ -149,6 +149,127 @@ def fitsAll : List Expr → Bool
 def fitsProps : List (Name × Expr) → Bool
   | [] => true
   | (_, e) :: ps => fits 0 e && fitsProps ps
+end
+
+/-! ## writing a tree out as tokens, and forgetting line numbers
+
+`toks e` is the rendering of `e` as actual tokens (all on line 0); `eraseE e` is `e` with every
+line field set to 0.  Completeness of the parser (`Lemmas/ParseComplete`) says: parsing `toks e`
+gives `eraseE e` back, for every tree that fits the ladder. -/
+
+def tk (x : RTok) : Token := ⟨x.tt, x.name, x.lit, 0⟩
+
+def toks (e : Expr) : List Token := (rExpr e).map tk
+
+def eraseLit : LitVal → LitVal := id
+
+mutual
+def eraseE : Expr → Expr
+  | .literal v _ => .literal v 0
+  | .ident n _ => .ident n 0
+  | .grouping e _ => .grouping (eraseE e) 0
+  | .unary op _ e => .unary op 0 (eraseE e)
+  | .binary l op _ r => .binary (eraseE l) op 0 (eraseE r)
+  | .logical l op r => .logical (eraseE l) op (eraseE r)
+  | .call c _ args => .call (eraseE c) 0 (eraseL args)
+  | .arrayLit es => .arrayLit (eraseL es)
+  | .objectLit ps tc => .objectLit (eraseP ps) tc
+  | .arrayAccess a i _ => .arrayAccess (eraseE a) (eraseE i) 0
+  | .propAccess o p _ => .propAccess (eraseE o) p 0
+  | .assign n _ v _ => .assign n 0 (eraseE v) 0
+  | .arrayAssign a i v _ => .arrayAssign (eraseE a) (eraseE i) (eraseE v) 0
+  | .propAssign o p v _ => .propAssign (eraseE o) p (eraseE v) 0
+def eraseL : List Expr → List Expr
+  | [] => []
+  | e :: es => eraseE e :: eraseL es
+def eraseP : List (Name × Expr) → List (Name × Expr)
+  | [] => []
+  | (k, e) :: ps => (k, eraseE e) :: eraseP ps
+end
+
+/-! ## explicit parentheses
+
+`paren e` writes every operand of every operator, every suffix target and every assignment target
+of `e` in parentheses; `strip e` removes all `Grouping` nodes; `opsOk e` says that the operators
+stored in `e` are operators of the language (a `Binary` node holds an operator of a level that
+builds `Binary` nodes, and so on) — any tree whatever otherwise. -/
+
+mutual
+def opsOk : Expr → Bool
+  | .literal _ _ => true
+  | .ident _ _ => true
+  | .grouping e _ => opsOk e
+  | .unary op _ e => Expect.unaryOps.contains op && opsOk e
+  | .binary l op _ r =>
+    (match levelOf op with
+     | some j => Parser.levelNode j == .binary
+     | none => false) && opsOk l && opsOk r
+  | .logical l op r =>
+    (match levelOf op with
+     | some j => Parser.levelNode j == .logical
+     | none => false) && opsOk l && opsOk r
+  | .call c _ args => opsOk c && opsOkL args
+  | .arrayLit es => opsOkL es
+  | .objectLit ps tc => opsOkP ps && (!ps.isEmpty || !tc)
+  | .arrayAccess a i _ => opsOk a && opsOk i
+  | .propAccess o _ _ => opsOk o
+  | .assign _ _ v _ => opsOk v
+  | .arrayAssign a i v _ => opsOk a && opsOk i && opsOk v
+  | .propAssign o _ v _ => opsOk o && opsOk v
+def opsOkL : List Expr → Bool
+  | [] => true
+  | e :: es => opsOk e && opsOkL es
+def opsOkP : List (Name × Expr) → Bool
+  | [] => true
+  | (_, e) :: ps => opsOk e && opsOkP ps
+end
+
+mutual
+def paren : Expr → Expr
+  | .literal v l => .literal v l
+  | .ident n l => .ident n l
+  | .grouping e l => .grouping (paren e) l
+  | .unary op l e => .unary op l (.grouping (paren e) 0)
+  | .binary l op ln r => .binary (.grouping (paren l) 0) op ln (.grouping (paren r) 0)
+  | .logical l op r => .logical (.grouping (paren l) 0) op (.grouping (paren r) 0)
+  | .call c l args => .call (.grouping (paren c) 0) l (parenL args)
+  | .arrayLit es => .arrayLit (parenL es)
+  | .objectLit ps tc => .objectLit (parenP ps) tc
+  | .arrayAccess a i l => .arrayAccess (.grouping (paren a) 0) (paren i) l
+  | .propAccess o q l => .propAccess (.grouping (paren o) 0) q l
+  | .assign n l v ln => .assign n l (paren v) ln
+  | .arrayAssign a i v ln => .arrayAssign (.grouping (paren a) 0) (paren i) (paren v) ln
+  | .propAssign o q v ln => .propAssign (.grouping (paren o) 0) q (paren v) ln
+def parenL : List Expr → List Expr
+  | [] => []
+  | e :: es => paren e :: parenL es
+def parenP : List (Name × Expr) → List (Name × Expr)
+  | [] => []
+  | (k, e) :: ps => (k, paren e) :: parenP ps
+end
+
+mutual
+def strip : Expr → Expr
+  | .literal v l => .literal v l
+  | .ident n l => .ident n l
+  | .grouping e _ => strip e
+  | .unary op l e => .unary op l (strip e)
+  | .binary l op ln r => .binary (strip l) op ln (strip r)
+  | .logical l op r => .logical (strip l) op (strip r)
+  | .call c l args => .call (strip c) l (stripL args)
+  | .arrayLit es => .arrayLit (stripL es)
+  | .objectLit ps tc => .objectLit (stripP ps) tc
+  | .arrayAccess a i l => .arrayAccess (strip a) (strip i) l
+  | .propAccess o q l => .propAccess (strip o) q l
+  | .assign n l v ln => .assign n l (strip v) ln
+  | .arrayAssign a i v ln => .arrayAssign (strip a) (strip i) (strip v) ln
+  | .propAssign o q v ln => .propAssign (strip o) q (strip v) ln
+def stripL : List Expr → List Expr
+  | [] => []
+  | e :: es => strip e :: stripL es
+def stripP : List (Name × Expr) → List (Name × Expr)
+  | [] => []
+  | (k, e) :: ps => (k, strip e) :: stripP ps
 end
 
 /-! ## the dangling else as a well-formedness predicate on statement trees -/
